@@ -141,6 +141,9 @@ PENDING = {
         "same mechanism for sort_values(k).tail(n)",
     "simplified-logical:projection-pushed-below-sort-head:TypeError@dataframe/dask_expr/_reductions.py:_nlast":
         "same mechanism for sort_values(k).tail(n), single column",
+    "simplified-physical:assign+filt+head:KeyError@_task_spec.py:__call__":
+        "df[p].assign(a=1)[p2].head(5)['a'] on ONE partition: the second simplify (after lowering) loses the Assign between "
+        "two filters, the projection of the assigned column then fails (no fix proposed)",
     "simplified-physical:filt+head+pred+reduce:IndexError@_task_spec.py:__call__":
         "second simplify squashes two filters although the upper predicate (with a reduction) already reads the filtered column: "
         "mask of mixed lengths, raises with duplicate index labels (no fix proposed)",
